@@ -360,6 +360,39 @@ def run(tier, seed, rng):
             bad = f"generated code and the interpreted twin report differently: {str(twin)[:200]}"
         if bad:
             failures.append(dict(kind='oracle', sig='stack-negative-literal-move', what=bad, classes=msrc, cls=c['cls'], case={k: v for k, v in c.items() if k in ('raw', 'value', 'offset')}, observed=o))
+    # ---- serializing: a field placed BEFORE everything written so far and long enough to run into the first fragment (the first
+    # thing packed does not start at the lowest offset): a collision like any other -- PacketError (packing) naming that field,
+    # one entry per enclosing reference / sequence; lengths that just fit pack fine
+    def _vc(sfx, conf):
+        src = ""
+        for L in (1, 2, 3, 4, 7):
+            src += (f"class Vec{L}{sfx}(Packet):\n{conf}    data = Data(4).at(2)\n    tag = Data({L}).at(0)\n"
+                    f"class VHold{L}{sfx}(Packet):\n{conf}    vec = Ref(Vec{L}{sfx})\n"
+                    f"class VTens{L}{sfx}(Packet):\n{conf}    vecs = Ref(Vec{L}{sfx}).repeated(2)\n"
+                    f"class VMid{L}{sfx}(Packet):\n{conf}    h = Int(1).at(9)\n    vec = Ref(Vec{L}{sfx}).at(1)\n")
+        return src
+    vsrc = _vc('', '') + _vc('L', "    __bisturi__ = {'generate_for_pack': False, 'generate_for_unpack': False}\n")
+    vcases, vwant = [], []
+    for sfx in ('', 'L'):
+        for L in (1, 2, 3, 4, 7):
+            v = f"Vec{L}{sfx}(data=b'DDDD', tag={b'T' * L!r})"
+            for cls, val, depth in ((f"Vec{L}{sfx}", v, 1), (f"VHold{L}{sfx}", f"VHold{L}{sfx}(vec={v})", 2), (f"VTens{L}{sfx}", f"VTens{L}{sfx}(vecs=[{v}, {v}])", 2), (f"VMid{L}{sfx}", f"VMid{L}{sfx}(h=1, vec={v})", 2)):
+                if L <= 2 and cls.startswith('VTens'):
+                    continue        # (the second element would begin where the first one's LAST field ended: inside its data)
+                vcases.append(dict(cls=cls, op='pack', value={"py": val})); vwant.append((L, depth, sfx))
+    vres = run_impl(os.path.join(VERIF, 'harness', 'impl_pkt.py'), dict(header=decl.HEADER_PY, blocks=[dict(name='before', src=vsrc)], modname='c12v', cases=vcases))
+    dist['placed_before_first_fragment_cases'] = len(vcases)
+    for c, o, (L, depth, sfx) in zip(vcases, vres['outcomes'], vwant):
+        st = o.get('stack', [])
+        if L <= 2:
+            ok = 'ok' in o
+            what = f"a field of {L} bytes placed at 0 before a field placed at 2: no collision, pack() succeeds"
+        else:
+            ok = (o.get('err') == 'packing' and o.get('str_ok') and len(st) == depth and 'tag' in st[0][1] and st[0][2] == f"Vec{L}{sfx}")
+            what = f"a field of {L} bytes placed at 0 runs into the field placed at 2: PacketError (packing) naming 'tag' of Vec{L}{sfx}, {depth} stack entries"
+        if not ok:
+            failures.append(dict(kind='oracle', sig='collision-before-first-fragment', what=what, classes='class ' + 'class '.join(x for x in vsrc.split('class ') if x.startswith((f"Vec{L}{sfx}(", c['cls'] + '('))),
+                                 cls=c['cls'], case=dict(value=c['value']['py']), observed=o))
     # ---- finding D12: descriptor hooks run outside the wrapped region
     probe = run_impl(os.path.join(VERIF, 'harness', 'impl_d12.py'), {})
     for cls, bad, what in probe:
